@@ -50,12 +50,15 @@ func NewWriterLevel(w io.Writer, h *sam.Header, level, wc int) (*Writer, error) 
 	}
 
 	err = bw.writeHeader(h)
-	if err != nil {
-		return nil, err
+	if err == nil {
+		bw.bg.Flush()
+		err = bw.bg.Wait()
 	}
-	bw.bg.Flush()
-	err = bw.bg.Wait()
 	if err != nil {
+		if _, ok := w.(*bgzf.Writer); !ok {
+			// Release the goroutine of the bgzf.Writer made here.
+			bg.Close()
+		}
 		return nil, err
 	}
 	return bw, nil
